@@ -44,6 +44,14 @@ def run(tier):
                 if v not in seen:
                     seen.add(v)
                     strings.append(v)
+        # numbers longer than the automaton's loop unrolling: 4x12.5K, 110H, 10.55K ...
+        base = list(strings)
+        for c in base:
+            if any(ch.isdigit() for ch in c) and (not quick or c in lang.REALISTIC or len(c) <= 7):
+                for v in lang.digit_variants(c):
+                    if v not in seen:
+                        seen.add(v)
+                        strings.append(v)
         for c in near[::20]:
             if c not in seen:
                 seen.add(c)
